@@ -1184,8 +1184,14 @@ func (t *http2Client) updateWindow(s *ClientStream, n uint32) {
 // for the transport and the stream based on the current bdp
 // estimation.
 func (t *http2Client) updateFlowControl(n uint32) {
+	// Only ever grow the windows: the estimate may be smaller than a
+	// configured initial window.
+	raiseIWS := false
 	updateIWS := func() bool {
-		t.initialWindowSize = int32(n)
+		if int64(n) > int64(t.initialWindowSize) {
+			t.initialWindowSize = int32(n)
+			raiseIWS = true
+		}
 		t.mu.Lock()
 		for _, s := range t.activeStreams {
 			s.fc.newLimit(n)
@@ -1193,15 +1199,21 @@ func (t *http2Client) updateFlowControl(n uint32) {
 		t.mu.Unlock()
 		return true
 	}
-	t.controlBuf.executeAndPut(updateIWS, &outgoingWindowUpdate{streamID: 0, increment: t.fc.newLimit(n)})
-	t.controlBuf.put(&outgoingSettings{
-		ss: []http2.Setting{
-			{
-				ID:  http2.SettingInitialWindowSize,
-				Val: n,
+	var wu cbItem
+	if d := t.fc.newLimit(n); d > 0 {
+		wu = &outgoingWindowUpdate{streamID: 0, increment: d}
+	}
+	t.controlBuf.executeAndPut(updateIWS, wu)
+	if raiseIWS {
+		t.controlBuf.put(&outgoingSettings{
+			ss: []http2.Setting{
+				{
+					ID:  http2.SettingInitialWindowSize,
+					Val: n,
+				},
 			},
-		},
-	})
+		})
+	}
 }
 
 func (t *http2Client) handleData(f *parsedDataFrame) {
